@@ -429,6 +429,21 @@ def rule_agreements(model):
                 for cn in model.callee_names(n, fi):
                     if cn.startswith('urllib.parse.'):
                         used.add(cn.split('.')[-1])
+                        # called with the value alone: an extra `safe=`,
+                        # `encoding=` ... changes which characters are
+                        # (un)quoted and breaks the round trip with the
+                        # inverse modifier
+                        extra = [k.arg for k in n.keywords] + [
+                            norm(a) for a in n.args[1:]]
+                        if extra:
+                            r.finding(fi.where, n, f'{name} calls '
+                                      f'{cn.split(".")[-1]}() with extra '
+                                      f'arguments ({", ".join(map(str, extra))}): '
+                                      'it no longer (un)quotes exactly what '
+                                      'its inverse restores -- text that '
+                                      'already contains %XX is left as it '
+                                      'is and comes back decoded', node=n,
+                                      ctx=fi)
             # the urllib function handed to a shared helper
             if isinstance(n, ast.Attribute) and \
                     norm(n.value) == 'urllib.parse':
